@@ -131,7 +131,9 @@ CLAIMS = {
           "invariant init_LInv / step_LInv / no_deadlock), ok_append / ok_flatten (sequences of ranked operations are ranked), acquire_needs_free. Instance, regenerated from executions of the "
           "current source on every run (translator gen/C15_pre_lean.py -> SentinelProofs/Generated/LockTraces.lean): traces_ranked (by decide: every recorded manager function of all five "
           "families, entry and exit path, breaker transitions with a listener calling back into read-only manager functions, respects one ranking and never re-acquires a held lock) and "
-          "managers_deadlock_free (any threads running any sequences of these operations never deadlock). Panic/poison freedom under concurrency is not a theorem here: it is searched for by "
+          "managers_deadlock_free (any threads running any sequences of these operations never deadlock). Termination: step_work (every step consumes one action), progress (while a call has "
+          "not returned some thread can move), all_done_locks_free (when every call has returned no lock is held, so every manager still answers), terminates / managers_terminate (every "
+          "execution can be continued to the state in which all calls have returned and all locks are free, within the total program length). Panic/poison freedom under concurrency is not a theorem here: it is searched for by "
           "running 2-3 real threads under the deterministic scheduler (generated schedules; operations with inverted lock orders found by the translator are run against each other with a "
           "preemption at every point) with panic capture and a health probe of all managers afterwards."),
     design_ref="DESIGN.md §6 C15",
@@ -145,9 +147,12 @@ CLAIMS = {
           "attempts by any number of threads). Theorems: listener_log_valid_path (the notifications form a path of the state machine under every interleaving), final_state_last, "
           "one_probe_per_half_open (after a transition into Half-Open the next transition leaves Half-Open: two probes are never admitted in one phase), competing_attempts_one_winner (of any "
           "number of identical attempts exactly the first succeeds), pass_only_closed_or_probe (a request passes only if it read Closed, or read Open at/after the retry deadline and won the "
-          "Open->Half-Open transition). Tie: 2-3 real threads around each transition on the real breakers under the deterministic scheduler; the Spec replays the schedule log: the listener "
+          "Open->Half-Open transition). Request-level model RSt.step (a request's try_pass together with the rollback hook of its own entry; completions): request_transitions (a request that is "
+          "not the probe never moves the breaker; a roll-back out of Half-Open belongs to the thread that opened this very phase in the same request), phase_admits_no_second_probe (from Half-Open, "
+          "every history of requests by any threads is refused and changes nothing), run_log_is_path. Tie: 2-3 real threads around each transition on the real breakers under the deterministic scheduler; the Spec replays the schedule log: the listener "
           "log must be a path from the state left by the setup, every admitted request must have entered the state mutex while it said Closed or have emitted Open->Half-Open itself "
-          "(notifications are logged inside the mutex, so the holder is the emitter), the final state must be the last notification's target."),
+          "(notifications are logged inside the mutex, so the holder is the emitter), a request that is not the probe must not move the breaker out of Half-Open, the final state must be the "
+          "last notification's target. Schedules: generated ones plus single- and two-preemption grids around the opening, the probe race and two racing completions."),
     design_ref="DESIGN.md §6 C16",
     technique="Lean 4 proof over all histories of an atomic-step model + scheduled executions of the real breakers checked by a log-replay Spec",
     note=NOTE_COMMON + " Partial as C14: scheduling points are the instrumented lock and atomic operations; the schedule exploration on the implementation is search."),
@@ -277,8 +282,10 @@ CLAIMS = {
     category="proof",
     text=("Theorems over every chain (any number of slots, arbitrary/equal order values, any pass/blocked/wait assignment): sorted-permutation "
           "insertion, call order prepare→check→stat, blocked iff some check blocked, delivered error comes from a blocking slot, exactly one "
-          "pass-or-blocked notification per stat slot, completion exactly once iff passed. The model (Sentinel/SlotChain.lean) is tied to "
-          "slot_chain.rs / EntryBuilder::build / exit by running recording slots on the real chain and comparing the complete call log; the "
+          "pass-or-blocked notification per stat slot, completion exactly once iff passed; stale_result_discarded (Chain.entryOn: whatever verdict the context carries when the check phase "
+          "starts - left by an earlier entry on the same context or written by a preparation slot - is discarded). The model (Sentinel/SlotChain.lean) is tied to "
+          "slot_chain.rs / context.rs / EntryBuilder::build / exit by running recording slots on the real chain (also SlotChain::entry / exit called directly on one context several times, "
+          "check results scripted per call, preparation slots that dirty the context) and comparing the complete call log; the "
           "Spec predicates are also evaluated directly on the implementation's log."),
     design_ref="DESIGN.md §6 C13",
     technique="Lean 4 theorems on a hand-written model + differential correspondence (recording slots) + Spec oracle on implementation traces",
